@@ -60,6 +60,18 @@ pub fn run(cx: &mut Ctx) {
     }
     cx.exhaustive_blocks.push(format!("inputs of 0..={maxn} rows x all combiners x fan-out {{None,0,1,2,3,7}} x classic/lifted x seq + par 1..min(n+1,6) ({n_ex} programs)"));
 
+    // combines over a streamed file source incl. the empty file (zero partitions reach the barrier)
+    for n in [0usize, 1, 6] {
+        let src: Vec<V> = (0..n as i64).map(|i| V::pair(V::I(i % 2), V::I(i + 1))).collect();
+        for per in [0usize, 2, 100] {
+            for steps in [vec![Step::CombineValues(Comb::Sum)], vec![Step::Gbk, Step::CombineValuesLifted(Comb::Count)],
+                          vec![Step::Values, Step::CombineGlobally(Comb::Sum, Some(1))], vec![Step::Values, Step::CombineGloballyLifted(Comb::MaxT, None)], vec![Step::Values, Step::Distinct]] {
+                let p = Prog { shape: Shape::KV, src: src.clone(), steps };
+                check_prog_file(cx, &p, per, &[Mode::Seq, Mode::Par(1), Mode::Par(3)], &o);
+            }
+        }
+    }
+
     // large partitions (above the planner's 64k rows/partition target), oracle only
     {
         let n = if cx.tier == crate::ctx::Tier::Quick { 70_001 } else { 140_003 };
